@@ -154,6 +154,69 @@ def series_payload_probes(rng, n, prop_kind):
     return out
 
 
+def series_default_probes(rng, n):
+    """C07 for series columns of either default: rows appended by a resize hold the column's own empty value in every
+    sample (NaN, or 0 for defaultnan=False), the first rows stay, also after the depth was changed and on derived tables."""
+    world._imports()
+    from datamatrix import DataMatrix, SeriesColumn, operations as ops
+    import numpy as np
+    out = []
+    for k in range(n):
+        sub = random.Random(rng.randrange(1 << 30))
+        random.seed(sub.randrange(1 << 30))
+        problem = None
+        trail = []
+        with warnings.catch_warnings():
+            warnings.simplefilter('ignore')
+            try:
+                m = sub.randint(2, 6)
+                dnan = sub.random() < 0.5
+                d0 = sub.randint(1, 4)
+                dm = DataMatrix(length=m)
+                dm.u = list(range(1, m + 1))
+                dm.s = SeriesColumn(depth=d0, defaultnan=dnan)
+                for i in range(m):
+                    dm.s[i] = [float(i + 1)] * d0
+                cur = dm
+                for _ in range(sub.randint(0, 3)):
+                    op = sub.choice(['select', 'sort', 'shuffle', 'depth', 'slice'])
+                    trail.append(op)
+                    if op == 'select':
+                        cur = cur.u >= sub.randint(0, 2)
+                    elif op == 'sort':
+                        cur = ops.sort(cur, by=cur.u)
+                    elif op == 'shuffle':
+                        cur = ops.shuffle(cur)
+                    elif op == 'slice':
+                        cur = cur[sub.randint(0, 1):]
+                    else:
+                        cur.s.depth = sub.randint(1, 5)
+                n0 = len(cur)
+                before = np.array(cur.s._seq, copy=True)
+                extra = sub.randint(1, 3)
+                cur.length = n0 + extra
+                trail.append('grow')
+                got = np.array(cur.s._seq)
+                if got.shape != (n0 + extra, before.shape[1]):
+                    problem = 'shape %r after growing %r by %d rows' % (got.shape, before.shape, extra)
+                elif not np.array_equal(got[:n0], before, equal_nan=True):
+                    problem = 'the first rows changed: %r -> %r' % (before.tolist(), got[:n0].tolist())
+                elif dnan and not np.isnan(got[n0:]).all():
+                    problem = 'appended rows of a NaN-default series hold %r' % (got[n0:].tolist(),)
+                elif not dnan and not (got[n0:] == 0).all():
+                    problem = 'appended rows of a zero-default series hold %r' % (got[n0:].tolist(),)
+                elif cur.s.dm is not cur or len(cur.s) != len(cur):
+                    problem = 'series column detached or of wrong length after the resize'
+            except Exception as e:      # noqa: BLE001
+                problem = 'raised %r' % (e,)
+        if problem:
+            problem = 'series column (defaultnan=%s) after %s: %s' % (dnan, '/'.join(trail), problem)
+        out.append({'input': {'probe': 'series_default', 'seed': k}, 'observed': {'problem': problem, 'ops': trail},
+                    'pyfail': problem, 'oracle': 'true', 'model': 'true', 'nontrivial': True,
+                    'sig': 'probe|series_default|%d' % k, 'tags': ['probe', 'probe:series_default']})
+    return out
+
+
 class ProbeMixin:
     """Direct Python-side probes next to the histories: cases whose input has a 'probe' key."""
 
@@ -263,6 +326,15 @@ class C06(ProbeMixin, HistProp):
             'sort_sorted': lambda dm: ops.sort(dm, by=dm.i),
             'select_all': lambda dm: dm.i >= 0,
             'series_slice': lambda dm: dm.s[:, 0:2],
+            'series_slice_full': lambda dm: dm.s[:, :],
+            'series_rows_full': lambda dm: dm.s[1:3, :],
+            'series_window': lambda dm: __import__('importlib').import_module('datamatrix.series').window(dm.s),
+            'series_sample': lambda dm: dm.s[:, 0],
+            'replace_nohit': lambda dm: ops.replace(dm.f, {7.5: 70.0}),
+            'replace_nohit_int': lambda dm: ops.replace(dm.i, {77: 70}),
+            'replace_empty': lambda dm: ops.replace(dm.f, {}),
+            'replace_series_nohit': lambda dm: ops.replace(dm.s, {7.5: 70.0}),
+            'replace_mixed_nohit': lambda dm: ops.replace(dm.a, {'q': 'r'}),
             'col_slice': lambda dm: dm.f[1:],
         }
 
@@ -298,15 +370,34 @@ class C06(ProbeMixin, HistProp):
                 dm.i = 0, 1, 2, 3
                 dm.s = SeriesColumn(depth=3)
                 dm.s[:, :] = 1.0
-                if sub.random() < 0.5:
+                c = sub.random()
+                if c < 0.4:
                     dm.s.depth = 2           # shrinking the depth turns the buffer into a view
                     dm.s.depth = 3 if sub.random() < 0.3 else 2
+                elif c < 0.6:
+                    dm.s.depth = 4           # growing it makes a fresh contiguous buffer
+                elif c < 0.7:
+                    dm.s.depth = 1
                 problem = None
                 try:
                     d = derivers[name](dm)
                     owners_ok = all(c.dm is dm for _n, c in dm.columns) and [n_ for n_, _c in dm.columns] == ['a', 'f', 'i', 's']
                     if not owners_ok:
                         problem = 'deriving with %s detached or renamed a column of the source' % name
+                    if not isinstance(d, DataMatrix) and len(d) == len(dm) and sub.random() < 0.5:
+                        # a derived column put into the table is a column of its own
+                        dm.new = derivers[name](dm)
+                        d2 = dm.new
+                        before_cols = {n_: repr(np.array(c._seq, dtype=object).tolist()) for n_, c in dm.columns if n_ != 'new'}
+                        if hasattr(d2, 'depth'):
+                            if d2.depth:
+                                d2[0, 0] = 321.0
+                        else:
+                            d2[0] = 88
+                        after_cols = {n_: repr(np.array(c._seq, dtype=object).tolist()) for n_, c in dm.columns if n_ != 'new'}
+                        if before_cols != after_cols:
+                            problem = 'writing to the column made by %s and assigned to dm.new changed another column' % name
+                        del dm['new']
                     side = sub.choice(['source', 'derived'])
                     before = snap(d if side == 'source' else dm)
                     mutate(dm if side == 'source' else d, sub)
@@ -339,7 +430,7 @@ class C07(ProbeMixin, HistProp):
         return super().generate(rng, tier) + self.direct_probes(rng, 60 if tier == 'quick' else 600)
 
     def direct_probes(self, rng, n):
-        return series_payload_probes(rng, n, 'C07')
+        return series_payload_probes(rng, n, 'C07') + series_default_probes(rng, max(20, n // 3))
 
 
 class C08(HistProp):
@@ -378,13 +469,13 @@ class C09(ProbeMixin, HistProp):
 
     def direct_probes(self, rng, n):
         world._imports()
-        from datamatrix import DataMatrix, FloatColumn, SeriesColumn, operations as ops
+        from datamatrix import DataMatrix, FloatColumn, IntColumn, SeriesColumn, operations as ops
         import numpy as np
         out = []
         for k in range(n):
             sub = random.Random(rng.randrange(1 << 30))
             problem = None
-            kind = sub.choice(['row', 'row_neg', 'row_sorted', 'dict', 'series'])
+            kind = sub.choice(['row', 'row_neg', 'row_sorted', 'dict', 'series', 'reused_row', 'dict_columns', 'series_zero'])
             with warnings.catch_warnings():
                 warnings.simplefilter('ignore')
                 try:
@@ -409,6 +500,50 @@ class C09(ProbeMixin, HistProp):
                             problem = 'a << row (%s, i=%d): x=%r y=%r z=%r' % (kind, i, list(r.x), list(r.y), list(r.z))
                         if before != [list(a.x), list(a.y), list(src.x), list(src.z)]:
                             problem = 'a << row changed an operand'
+                    elif kind == 'reused_row':
+                        # one Row object used twice, with the table it points into changed in between
+                        src = ops.sort(b, by=b.x) if sub.random() < 0.5 else b
+                        i = sub.randrange(len(src))
+                        row = src[i]
+                        r0 = a << row
+                        src.x[i] = 77
+                        src.z[i] = 7.5
+                        r = a << row
+                        if list(r.x) != [1, 2, 3, 77] or list(r.z)[3] != 7.5:
+                            problem = 'a << row after the row\'s table changed: x=%r z=%r (the row reads x=%r)' % (
+                                list(r.x), list(r.z), row.x)
+                        if list(r0.x)[3] == 77:
+                            problem = 'the earlier result of a << row changed with the source table'
+                    elif kind == 'dict_columns':
+                        # dict values that are column objects of another table count as sequences of their cells
+                        c = DataMatrix(length=2)
+                        c.i = IntColumn
+                        c.i = 7, 8
+                        c.f = FloatColumn
+                        c.f = 1.5, 2.5
+                        r = a << {'x': c.i, 'w': c.f, 'y': c.i}
+                        r2 = a << {'x': [7, 8], 'w': [1.5, 2.5], 'y': [7, 8]}
+                        got = [(n_, type(col).__name__, list(col)) for n_, col in r.columns]
+                        want = [(n_, type(col).__name__, list(col)) for n_, col in r2.columns]
+                        if repr(got) != repr(want):
+                            problem = 'a << dict of column objects gives %r, of their cells as lists %r' % (got, want)
+                    elif kind == 'series_zero':
+                        # a series column created with defaultnan=False is padded with zeros (its own empty value)
+                        da, db = sub.randint(1, 3), sub.randint(1, 3)
+                        a.s = SeriesColumn(depth=da, defaultnan=False)
+                        a.s[:, :] = 1.0
+                        b.t = SeriesColumn(depth=db, defaultnan=False)
+                        b.t[:, :] = 2.0
+                        r = a << b
+                        ws = np.zeros((7, da))
+                        ws[:3] = 1.0
+                        wt = np.zeros((7, db))
+                        wt[3:] = 2.0
+                        if not np.array_equal(np.array(r.s._seq), ws) or not np.array_equal(np.array(r.t._seq), wt):
+                            problem = 'zero-default series columns after <<: s=%r t=%r' % (r.s._seq.tolist(), r.t._seq.tolist())
+                        r.length = 8
+                        if not (np.array(r.s._seq)[7] == 0).all() or not (np.array(r.t._seq)[7] == 0).all():
+                            problem = 'a zero-default series column grew with %r' % (np.array(r.s._seq)[7].tolist(),)
                     elif kind == 'dict':
                         r = a << {'x': [7, '8'], 'w': ['u', 2.0]}
                         if list(r.x) != [1, 2, 3, 7, 8] or list(r.w) != ['', '', '', 'u', 2] or list(r.y) != ['p', 'q', 'r', '', '']:
